@@ -1,6 +1,7 @@
 (* C12: trading fees are exact and routed to the right pools.  Statements only. *)
 From MP.Model Require Import Prelude U128 SInt Feed Vamm VammOps Token World Engine Runtime.
-From MP.Proofs Require Import Tactics SIntFacts EngineArith CloseFacts MoreFacts CloseTxFacts OpenTxFacts Scenario.
+From MP.Proofs Require Import Tactics SIntFacts EngineArith CloseFacts MoreFacts CloseTxFacts OpenTxFacts.
+From MP.Model Require Import Scenario.
 
 Theorem C12_fee_amounts : forall v quote toll spread, 0 <= quote ->
   q_calc_fee v quote = Ok (toll, spread) ->
